@@ -446,6 +446,9 @@ func (s *Server) cmdEvalUnified(scriptIsSha bool, msg *Message) (res resp.Value,
 	if err != nil {
 		return
 	}
+	// registered first so that it runs last: everything deferred below still
+	// uses the state and must be done before it goes back to the pool.
+	defer s.luapool.Put(luaState)
 	luaDeadline := lua.LNil
 	if msg.Deadline != nil {
 		dlTime := msg.Deadline.GetDeadlineTime()
@@ -455,7 +458,6 @@ func (s *Server) cmdEvalUnified(scriptIsSha bool, msg *Message) (res resp.Value,
 		defer luaState.RemoveContext()
 		luaDeadline = lua.LNumber(float64(dlTime.UnixNano()) / 1e9)
 	}
-	defer s.luapool.Put(luaState)
 
 	keysTbl := luaState.CreateTable(int(numkeys), 0)
 	for i = 0; i < numkeys; i++ {
